@@ -104,6 +104,12 @@ def pureGenesis : List String → Option String
   | "gen-check" :: toks => do
       let c ← parseConfig toks
       pure (checkGenesis c).show
+  | ["gen-header", chain, ts, extra] => do
+      let chain ← chain.toNat?
+      let ts ← ts.toInt?
+      let extra ← ofHex extra
+      let h := genesisHeader { chainIdentifier := chain, extraData := extra, genesisTimestampSec := ts }
+      pure s!"{h.version} {h.chainIdentifier} {h.height} {h.timestampUnix} {showHex h.data}"
   | ["gen-startup", stored, cfg] => do
       let cfg ← ofHex cfg
       let stored ← (if stored = "empty" then some none else (ofHex stored).map some)
